@@ -26,5 +26,5 @@ echo "== build"; $GO build ./... && echo build-ok
 echo "== demo with change (expect fail)"; rundemo; echo "rc=$?"; tail -5 /tmp/seedtest-demo.log
 pkgs=$(git diff --name-only | xargs -n1 dirname | sort -u | sed 's#^#./#' | tr '\n' ' ')
 echo "== unit tests of changed packages (untagged): $pkgs"; $GO test -vet=off -count=1 $pkgs 2>&1 | grep -v "^Saved\|^crypto store" | tail -6
-for p in $PROPS; do echo "== our check $p against the change"; (cd /verif && VF_REPO=$WT ./vf check $p --tier quick 2>&1 | grep -E "VIOLATION|KNOWN|tier=|BROKEN" | cut -c1-330 | head -6); done
+for p in $PROPS; do echo "== our check $p against the change"; (cd /verif && VF_REPO=$WT ./vf check $p --tier quick 2>&1 | grep -E "VIOLATION|KNOWN|tier=|BROKEN" | cut -c1-330 | grep -v "did not occur in this run" | head -8); done
 git checkout -q -- . ; git clean -fdq -e OUT
